@@ -429,6 +429,8 @@ class Cmp:
                 self.refs(f'alias {nm}', got, a['ty'], gens if not inline else [])
             if lang == 'typescript':
                 self.eq('alias_optional', d.get('optional'), is_opt(a['ty']), f'alias {nm} `| undefined`')
+                self.eq('ts_null_union', (d.get('optional_detail') or {}).get('null_union'), is_opt(a['ty']) and is_opt(a['ty']['params'][0]),
+                        f'alias {nm} `| null` (double option)')
         # ---- enums
         n_inner = 0
         for e in t['enums']:
@@ -523,6 +525,8 @@ class Cmp:
                             self.refs(w, got, v['ty'], enum_generics)
                         if lang == 'typescript':
                             self.eq('payload_optional', ov.get('optional'), is_opt(v['ty']), w + ' `content?`')
+                            self.eq('ts_null_union', (ov.get('optional_detail') or {}).get('null_union'), is_opt(v['ty']) and is_opt(v['ty']['params'][0]),
+                                    w + ' `| null` (double option)')
                 else:
                     self.eq('payload', got_payload, 'unit', w + ' payload')
             if alg:
